@@ -33,7 +33,9 @@ type (
 )
 
 // The last two types have the same package name and type name ("dup.T") but different import paths.
-var hashPool = []interface{}{hashT1{}, hashT2{}, hashT3{}, hashT4{}, hashT5{}, hashT6{}, hashT7{}, hashT8{}, dupa.T{}, dupb.T{}, hashID(0), hashCur("")}
+// Slices of pool types are types of their own (gob itself refuses T together with *T).
+var hashPool = []interface{}{hashT1{}, hashT2{}, hashT3{}, hashT4{}, hashT5{}, hashT6{}, hashT7{}, hashT8{}, dupa.T{}, dupb.T{}, hashID(0), hashCur(""),
+	[]hashT1{}, []*hashT2{}}
 
 // childHashMain registers the pool types named by VERIF_HASH_ORDER (comma separated indexes,
 // repetitions allowed) in that order and prints the resulting types hash.
